@@ -9,8 +9,12 @@ open GM GM.Text GM.Spec GM.Proof.Reader
 
 /-- the parsers that can be tried on any line of `src` are covered -/
 structure TrigOK (src : Bytes) (al : BP → Bool) : Prop where
-  free : ∀ bp ∈ freeParsers, al bp = true ∨ (bp.notList = false ∧ al .list = false ∧ NoItem src)
-  trig : ∀ c ∈ src, ∀ bp ∈ (triggered c).getD freeParsers, al bp = true ∨ (bp.notList = false ∧ al .list = false ∧ NoItem src)
+  free : ∀ bp ∈ freeParsers, al bp = true ∨ (bp.notList = false ∧ al .list = false ∧ NoItem src) ∨
+      (bp = .setext ∧ al .setext = false ∧ NoBar src)
+  trig : ∀ c ∈ src, ∀ bp ∈ (triggered c).getD freeParsers, al bp = true ∨ (bp.notList = false ∧ al .list = false ∧ NoItem src) ∨
+      (bp = .setext ∧ al .setext = false ∧ NoBar src)
+
+theorem nodesEq_noR (n0 : List Node) : NoR (fun s : St => s.nodes = n0) := ⟨fun _ _ hs => hs⟩
 
 /-! ### the retry measure: B's is A's plus a constant of the line -/
 
@@ -122,14 +126,17 @@ def LoopIH (src : Bytes) (al : BP → Bool) (bA bB cont : Bool) (fA fB : Nat) : 
   (FL src → bB = bA) →
   ∀ (q : Nat) (result resultB : OpenResult) (lbA lbB : Option Block) {k ls p : Nat} {sA sB : St},
     DRL src al k ls p sA sB → LRw al lbA lbB → RRes cont result resultB → HC cont result lbA sA →
+    q < sA.nodes.length → (al .setext = false → (bB = bA ∨ q = 0 ∨ QE q sA)) →
     S2 (fun a b sA' sB' => RRes cont a b ∧ (resultB = result → b = a) ∧ (∃ p', DR src al k ls p' sA' sB') ∧
         OLU src ls p cont result a)
       (openBlocksLoop bA cont fA q result lbA sA) (openBlocksLoop bB cont fB (q + 1) resultB lbB sB)
 
 theorem obJp_sim {src al} (ps : PS src al) (fr : Frames al) (ot : OT src) (ns : NS src) (bA bB cont : Bool) (hb : FL src → bB = bA) {fA fB : Nat}
     (ih : LoopIH src al bA bB cont fA fB) (q : Nat) (w : Int) (result resultB : OpenResult) {lbA lbB : Option Block}
-    (hl : LRw al lbA lbB) (bps : List BP) (hbps : ∀ bp ∈ bps, al bp = true ∨ (bp.notList = false ∧ al .list = false ∧ NoItem src)) {k ls p} {sA sB : St}
+    (hl : LRw al lbA lbB) (bps : List BP) (hbps : ∀ bp ∈ bps, al bp = true ∨ (bp.notList = false ∧ al .list = false ∧ NoItem src) ∨
+      (bp = .setext ∧ al .setext = false ∧ NoBar src)) {k ls p} {sA sB : St}
     (h : DR src al k ls p sA sB) (hres : RRes cont result resultB) (hcl : HC cont result lbA sA)
+    (hq : q < sA.nodes.length) (hbq : al .setext = false → (bB = bA ∨ q = 0 ∨ QE q sA))
     (hm1 : w ≤ 3 → BP.paragraph ∈ bps)
     (hm2 : 3 < w → BP.code ∈ bps ∧ ∃ lo : Int, w = (indentWidthI ((viewA src ls p).getD []) lo).1) :
     S2 (fun a b sA' sB' => RRes cont a b ∧ (resultB = result → b = a) ∧ (∃ p', DR src al k ls p' sA' sB') ∧
@@ -139,11 +146,11 @@ theorem obJp_sim {src al} (ps : PS src al) (fr : Frames al) (ot : OT src) (ns : 
   refine S2.bind (get_s2 h) (fun stA stB sA1 sB1 hq => ?_)
   obtain ⟨e1, e2, e3, e4⟩ := hq
   rw [e1, e2, e3, e4]
-  refine S2.bind (tryParsers_sim ps fr ot bA bB cont hb w q bps hbps result resultB lbA lbB h hl hres hcl) (fun a b sA2 sB2 hq => ?_)
-  obtain ⟨⟨hout, hr, hl2, hnew⟩, heq, ⟨p', h2⟩, hu, hcl2⟩ := hq
+  refine S2.bind (tryParsers_sim ps fr ot bA bB cont hb w q bps hbps result resultB lbA lbB h hl hres hcl hq hbq) (fun a b sA2 sB2 hq => ?_)
+  obtain ⟨⟨hout, hr, hl2, hnew⟩, heq, ⟨p', h2⟩, hu, hcl2, hret, _⟩ := hq
   obtain ⟨oA, rA, lA⟩ := a
   obtain ⟨oB, rB, lB⟩ := b
-  simp only at hout hr hl2 hnew heq hu hcl2 ⊢
+  simp only at hout hr hl2 hnew heq hu hcl2 hret ⊢
   cases oA with
   | retry qa =>
     cases oB with
@@ -161,7 +168,8 @@ theorem obJp_sim {src al} (ps : PS src al) (fr : Frames al) (ot : OT src) (ns : 
         exact S2.errL (throw_bind_err _ _ _)
       · rw [if_neg hc, if_neg hc]
         rw [hrA, hrB]
-        exact S2.mono (ih hb qa .newBlocksOpened .newBlocksOpened lA lB h2.loose hl2 (.inl rfl) (HC.of_new rfl))
+        exact S2.mono (ih hb qa .newBlocksOpened .newBlocksOpened lA lB h2.loose hl2 (.inl rfl) (HC.of_new rfl)
+            (hret qa rfl).1 (fun _ => .inr (.inr (hret qa rfl).2)))
           (fun _ _ _ _ hh => ⟨hh.1, fun _ => hh.2.1 rfl, hh.2.2.1, fun hc _ => hh.2.2.2 hc (.inl rfl)⟩)
   | done =>
     cases oB with
@@ -187,11 +195,11 @@ theorem openBlocksLoop_sim {src al} (ps : PS src al) (fr : Frames al) (ot : OT s
   intro fA
   induction fA with
   | zero =>
-    intro fB _ hb q result resultB lbA lbB k ls p sA sB _ _ _ _
+    intro fB _ hb q result resultB lbA lbB k ls p sA sB _ _ _ _ _ _
     unfold openBlocksLoop
     exact S2.errL rfl
   | succ fA ih =>
-    intro fB hle hb q result resultB lbA lbB k ls p sA sB h hl hres hcl
+    intro fB hle hb q result resultB lbA lbB k ls p sA sB h hl hres hcl hq hbq
     obtain ⟨fB', rfl⟩ : ∃ f, fB = f + 1 := ⟨fB - 1, by omega⟩
     have ih' := ih fB' (by omega)
     -- the exit through `toContinuable` before any parser was tried
@@ -208,14 +216,16 @@ theorem openBlocksLoop_sim {src al} (ps : PS src al) (fr : Frames al) (ot : OT s
       · exact e
       · exact absurd hn hnb
     unfold openBlocksLoop
-    refine S2.bind (S2.andL (peekLine_l h) (F := fun _ sA' => sA'.pc.opened = sA.pc.opened)
-      (fun _ sA' e => peekLine_keeps (openedIs_frame sA.pc.opened).mods.noR sA _ sA' rfl e)) (fun a b sA1 sB1 hq => ?_)
-    obtain ⟨⟨ea, eb, h1⟩, ho1⟩ := hq
+    refine S2.bind (S2.andL (peekLine_l h) (F := fun _ sA' => sA'.pc.opened = sA.pc.opened ∧ sA'.nodes = sA.nodes)
+      (fun _ sA' e => ⟨peekLine_keeps (openedIs_frame sA.pc.opened).mods.noR sA _ sA' rfl e,
+        peekLine_keeps (nodesEq_noR sA.nodes) sA _ sA' rfl e⟩)) (fun a b sA1 sB1 hq => ?_)
+    obtain ⟨⟨ea, eb, h1⟩, ho1, hn1⟩ := hq
     subst ea eb
     simp only
-    refine S2.bind (S2.andL (lineOffset_l h1) (F := fun _ sA' => sA'.pc.opened = sA1.pc.opened)
-      (fun _ sA' e => lineOffset_keeps (openedIs_frame sA1.pc.opened).mods.noR sA1 _ sA' rfl e)) (fun loA loB sA2 sB2 hq => ?_)
-    obtain ⟨⟨_, h2⟩, ho2⟩ := hq
+    refine S2.bind (S2.andL (lineOffset_l h1) (F := fun _ sA' => sA'.pc.opened = sA1.pc.opened ∧ sA'.nodes = sA1.nodes)
+      (fun _ sA' e => ⟨lineOffset_keeps (openedIs_frame sA1.pc.opened).mods.noR sA1 _ sA' rfl e,
+        lineOffset_keeps (nodesEq_noR sA1.nodes) sA1 _ sA' rfl e⟩)) (fun loA loB sA2 sB2 hq => ?_)
+    obtain ⟨⟨_, h2⟩, ho2, hn2⟩ := hq
     have htf := viewA_tf_la h.r.tf ls p
     rw [indentWidthI_tf _ htf loB loA]
     generalize hwp : indentWidthI ((viewA src ls p).getD []) loA = wp
@@ -223,16 +233,22 @@ theorem openBlocksLoop_sim {src al} (ps : PS src al) (fr : Frames al) (ot : OT s
     have hw : w = (indentWidthI ((viewA src ls p).getD []) loA).1 := by rw [hwp]
     simp only
     refine S2.bind (S2.andL (modPc_l h2 _ _ (fun a b hab => ?_) (fun a n ha => ?_))
-      (F := fun _ sA' => sA'.pc.opened = sA2.pc.opened) (fun _ sA' e => ?_)) (fun _ _ sA3 sB3 hq => ?_)
+      (F := fun _ sA' => sA'.pc.opened = sA2.pc.opened ∧ sA'.nodes = sA2.nodes) (fun _ sA' e => ?_)) (fun _ _ sA3 sB3 hq => ?_)
     · split
       · exact ⟨rfl, rfl, hab.opened, hab.tmpPara, hab.fence, hab.skipList, hab.emptyItemBlank⟩
       · exact ⟨rfl, rfl, hab.opened, hab.tmpPara, hab.fence, hab.skipList, hab.emptyItemBlank⟩
     · split
-      · exact ⟨ha.opened, ha.tmp, ha.fence, ha.u, ha.nk, ha.pk⟩
-      · exact ⟨ha.opened, ha.tmp, ha.fence, ha.u, ha.nk, ha.pk⟩
-    · unfold modPc at e; cases e; simp only; split <;> rfl
-    obtain ⟨h3, ho3'⟩ := hq
+      · exact ⟨ha.opened, ha.tmp, ha.fence, ha.u, ha.nk, ha.pk, ha.rg⟩
+      · exact ⟨ha.opened, ha.tmp, ha.fence, ha.u, ha.nk, ha.pk, ha.rg⟩
+    · unfold modPc at e; cases e; simp only; exact ⟨by split <;> rfl, trivial⟩
+    obtain ⟨h3, ho3', hn3'⟩ := hq
     have ho3 : sA3.pc.opened = sA.pc.opened := by rw [ho3', ho2, ho1]
+    have hn3 : sA3.nodes = sA.nodes := by rw [hn3', hn2, hn1]
+    have hq3 : q < sA3.nodes.length := by rw [hn3]; exact hq
+    have hbq3 : al .setext = false → (bB = bA ∨ q = 0 ∨ QE q sA3) := fun hns =>
+      (hbq hns).imp id (Or.imp id (fun e => by
+        show (sA3.nodes.getD q default).children = []
+        rw [hn3]; exact e))
     have hcl3 : HC cont result lbA sA3 := hcl.congr ho3
     by_cases hnone : (viewA src ls p).isNone = true
     · rw [if_pos hnone, if_pos hnone]
@@ -256,10 +272,10 @@ theorem openBlocksLoop_sim {src al} (ps : PS src al) (fr : Frames al) (ot : OT s
       have hmem : d ∈ src := by
         obtain ⟨_, _, hb⟩ := idx_view_la hd
         exact List.mem_of_getElem? hb
-      exact obJp_sim ps fr ot ns bA bB cont hb ih' q w result resultB hl _ (tr.trig d hmem) h3 hres hcl3
+      exact obJp_sim ps fr ot ns bA bB cont hb ih' q w result resultB hl _ (tr.trig d hmem) h3 hres hcl3 hq3 hbq3
         (fun _ => (free_mem_triggered d).1) (fun _ => ⟨(free_mem_triggered d).2, loA, hw⟩)
     · rw [if_neg hpl, if_neg hpl]
-      exact obJp_sim ps fr ot ns bA bB cont hb ih' q w result resultB hl _ tr.free h3 hres hcl3
+      exact obJp_sim ps fr ot ns bA bB cont hb ih' q w result resultB hl _ tr.free h3 hres hcl3 hq3 hbq3
         (fun _ => by simp [freeParsers]) (fun _ => ⟨by simp [freeParsers], loA, hw⟩)
 
 theorem qp_length_ge_len (src : Bytes) : src.length ≤ (quotePrefix src).length := by
@@ -269,7 +285,8 @@ theorem qp_length_ge_len (src : Bytes) : src.length ≤ (quotePrefix src).length
 
 /-- parser.openBlocks, from states that may still disagree on BlockOffset / BlockIndent -/
 theorem openBlocks_sim {src al} (ps : PS src al) (fr : Frames al) (ot : OT src) (ns : NS src) (tr : TrigOK src al)
-    (bA bB : Bool) (hb : FL src → bB = bA) (q : Nat) {k ls p} {sA sB : St} (h : DRL src al k ls p sA sB) :
+    (bA bB : Bool) (hb : FL src → bB = bA) (q : Nat) {k ls p} {sA sB : St} (h : DRL src al k ls p sA sB)
+    (hq : q < sA.nodes.length) (hbq : al .setext = false → (bB = bA ∨ q = 0)) :
     S2 (fun a b sA' sB' => b = a ∧ (∃ p', DR src al k ls p' sA' sB') ∧
         (sA.pc.opened = [] → NBV src ls p → a = .newBlocksOpened))
       (openBlocks q bA sA) (openBlocks (q + 1) bB sB) := by
@@ -301,7 +318,7 @@ theorem openBlocks_sim {src al} (ps : PS src al) (fr : Frames al) (ot : OT src) 
       ((source >>= fun x => openBlocksLoop bB false (retryFuel x) (q + 1) .noBlocksOpened (some bqBlock)) sB)
     rw [bind_run esA, bind_run esB]
     exact S2.mono (openBlocksLoop_sim ps fr ot ns tr bA bB false _ _ fuel hb q _ _ _ _ h (.inr hl) (.inl rfl)
-        (fun hc => by cases hc))
+        (fun hc => by cases hc) hq (fun hns => (hbq hns).imp id .inl))
       (fun _ _ _ _ hh => ⟨hh.2.1 rfl, hh.2.2.1, fun _ hnb => hh.2.2.2 rfl (.inr ⟨rfl, hnb⟩)⟩)
   · rw [ea, eb] at hl ⊢
     obtain ⟨_, hx0⟩ := hl.ok x rfl
@@ -323,7 +340,8 @@ theorem openBlocks_sim {src al} (ps : PS src al) (fr : Frames al) (ot : OT src) 
       cases hy
       have hk := (h.a.pk x (List.mem_of_getLast? ea)).2
       exact bp_kind_paragraph (by rw [← hk]; simpa using hc)
-    exact S2.mono (openBlocksLoop_sim ps fr ot ns tr bA bB _ _ _ fuel hb q _ _ _ _ h (.inr hl) (.inl rfl) hcl)
+    exact S2.mono (openBlocksLoop_sim ps fr ot ns tr bA bB _ _ _ fuel hb q _ _ _ _ h (.inr hl) (.inl rfl) hcl
+        hq (fun hns => (hbq hns).imp id .inl))
       (fun _ _ _ _ hh => ⟨hh.2.1 rfl, hh.2.2.1, fun ho _ => by rw [ho] at ea; cases ea⟩)
 
 end GM.Blocks
